@@ -103,7 +103,9 @@ class Ctx:
         self.tier = tier
         self.seed = int(seed if seed is not None else os.environ.get("VERIF_SEED", "1"))
         self.rng = random.Random(self.seed)
-        self.work = WORK / pid
+        # runs against a scratch checkout (VERIF_REPO) get their own scratch directory, so that they can run while
+        # the same check runs against /repo
+        self.work = WORK / (pid if str(REPO) == "/repo" else pid + "__" + hashlib.sha1(str(REPO).encode()).hexdigest()[:8])
         self.t0 = time.time()
         self.cov = {}            # coverage dict for evidence
         self.assumptions = []
